@@ -129,12 +129,11 @@ def columns (types : List Nat) (votes : List Nat) (corrSum : List Rat) :
     List Nat × List Rat × List Nat :=
   if hasDupTypes types then aggregateVotes types votes corrSum else (votes, corrSum, types)
 
-/-- `choose_node` after `tally_votes`, for one cell.  `orderDesc` is the
-    cell's row of `np.argsort(votes, axis=1)[:, -1::-1]` (over the columns
-    returned by `columns`). -/
-def chooseCell (types : List Nat) (votes : List Nat) (corrSum : List Rat)
+/-- the body of `choose_node` after the (optional) aggregation, for one cell,
+    on the columns it works on.  `orderDesc` is the cell's row of
+    `np.argsort(votes, axis=1)[:, -1::-1]`. -/
+def chooseCols (votes : List Nat) (corrSum : List Rat) (types : List Nat)
     (iters nAssign : Nat) (orderDesc : List Nat) : Except ChooseErr Choice :=
-  let (votes, corrSum, types) := columns types votes corrSum
   let nA := min nAssign votes.length
   if iters = 0 then .error .zeroIterations else
   match orderDesc.take nA with
@@ -147,6 +146,14 @@ def chooseCell (types : List Nat) (votes : List Nat) (corrSum : List Rat)
           runners := rest.map (fun i =>
             { type := types.getD i 0, valid := decide (0 < v i),
               avgCorr := avg i, prob := frac i }) }
+
+/-- `choose_node` after `tally_votes`, for one cell.  `orderDesc` is the
+    cell's row of `np.argsort(votes, axis=1)[:, -1::-1]` (over the columns
+    returned by `columns`). -/
+def chooseCell (types : List Nat) (votes : List Nat) (corrSum : List Rat)
+    (iters nAssign : Nat) (orderDesc : List Nat) : Except ChooseErr Choice :=
+  let cols := columns types votes corrSum
+  chooseCols cols.1 cols.2.1 cols.2.2 iters nAssign orderDesc
 
 /-- the write-back in `run_type_assignment`: runner-up tuples are kept only
     when their flag (votes > 0) is set:
